@@ -146,7 +146,7 @@ CHECKS = {
               "binary vs set relation for a single child) the reader returns exactly the reference model; FeatureIDE — the reader "
               "is invariant under graphics / description elements, mandatory=\"false\" / abstract=\"false\", attribute order, "
               "reads n-ary conj / disj as the left fold, and reads the canonical document of a model as that model (also with no "
-              "constraints section). AFM — redundant parentheses anywhere in a constraint and absent sections do not change what is read; "
+              "constraints section). AFM — redundant parentheses anywhere in any constraint of a document and absent sections do not change what is read; "
               "Glencoe — undefined top-level keys are ignored wherever they stand, n-ary And/Or/Xor terms are left folds. PARTIAL "
               "for AFM and Glencoe beyond that: the denotation of their reference-emitter documents is decided by the oracle on "
               "suites R-afm-3p / R-glencoe-3p, not by a theorem. The shipped corpus is read by model and implementation and compared "
@@ -183,8 +183,11 @@ CHECKS = {
     "C04": dict(
         text=("PARTIAL. Theorems over the UVL reader model: what is read does not depend on redundant parentheses, quoting of a "
               "reference, whether several children share one group keyword, an explicit Boolean type, [n] vs [n..n]; the canonical "
-              "document of a model reads as that model (C01); a parser-reported syntax error becomes a library error and never a "
-              "model. Not proved: which texts the external ANTLR parser accepts/rejects and how comments, blank lines and headers "
+              "document of a model reads as that model (C01); CLOSURE: [dvar], the equivalence closure of these rewrites (plus "
+              "quoted attribute keys, alternative / or written as the cardinality group they abbreviate, absent vs empty sections) "
+              "applied at any depth and position, is invisible to the reader, hence every surface variant of a model's canonical "
+              "document reads as that model (C04_variant_denotes); a parser-reported syntax error becomes a library error and "
+              "never a model. Not proved: which texts the external ANTLR parser accepts/rejects and how comments, blank lines and headers "
               "vanish in its parse tree — decided on the implementation by suite R-uvl-emitter (independent reference emitter + "
               "oracle: model read = reference model) and suite P-uvl-invalid (one-defect documents must raise)."),
         note=("Coq kernel; extraction/driver; harness reference emitter (its reading of the UVL language); the external parser is "
